@@ -93,3 +93,11 @@ reg('C14', 'runtime monitoring: controlled-schedule monitor (sys.monitoring toke
     "thread's result, the cache content afterwards and a sequential compile afterwards are compared with the sequential "
     'reference. Custom maps are fresh per schedule so that nothing cached earlier can hide a window.',
     'Trusted: statement-granularity preemption; C-level atomicity of re/lru_cache; GIL build.')
+reg('C15', 'runtime monitoring: structure walker, value-law monitor and identity ledger over compile/purge histories',
+    'For ~10^4 compiled objects per quick run every reachable node is attacked with setattr/delattr/new attributes and '
+    'hashed; equality/hash laws are checked against objects compiled from equal arguments (other dict order/type) and '
+    'from arguments differing in exactly one of namespaces/custom/flags; pickle/copy/deepcopy must be equal and select '
+    'the same; caller dicts must not be aliased; compile(compiled) must be the identity and reject extra arguments; '
+    'compile/purge histories over up to 900 keys are checked with an identity ledger (<= 500 identical survivors, none '
+    'after purge, every result equal to a fresh parse and carrying the requested arguments).',
+    'Trusted: the documented bound of 500; equality of arguments as defined in ASSUMPTIONS; private attributes not attacked.')
